@@ -177,10 +177,10 @@ def indexByte (bs : Bytes) (c : UInt8) : Int :=
   | some i => i
   | none => -1
 
-def lastIndexByte (bs : Bytes) (c : UInt8) : Int :=
-  match bs.reverse.findIdx? (· == c) with
-  | some i => (bs.length - 1 - i : Nat)
-  | none => -1
+/-- `strings.LastIndexByte`: index of the last occurrence, −1 if there is none -/
+def lastIndexByte : Bytes → UInt8 → Int
+  | [], _ => -1
+  | b :: r, c => if lastIndexByte r c ≥ 0 then lastIndexByte r c + 1 else if b == c then 0 else -1
 
 def appendVal : List Val → Option Val
   | [.bytes s, .int c] => some (.bytes (s ++ [UInt8.ofNat c.toNat]))      -- append(s, c)
